@@ -4,6 +4,7 @@ import ArcaModel.Model.DispatchFunc
 import ArcaModel.Model.DispatchCodegen
 import ArcaModel.Model.DispatchStep
 import ArcaModel.Model.DispatchEffects
+import ArcaModel.Model.DispatchUnits
 /-
   Line-protocol driver: one JSON case per input line, one JSON result per output line.
   Runs the model's executable definitions; used by the correspondence checks.
@@ -12,7 +13,7 @@ open Lean Arca
 
 /-- every model's line-protocol handler: `op name → case → result` -/
 def handlers : List (String → Json → Option (Except String Json)) :=
-  [Arca.Dispatch.schemaHandler, Arca.Dispatch.funcHandler, Arca.Dispatch.codegenHandler, Arca.Dispatch.stepHandler, Arca.Dispatch.raceHandler]
+  [Arca.Dispatch.schemaHandler, Arca.Dispatch.funcHandler, Arca.Dispatch.codegenHandler, Arca.Dispatch.stepHandler, Arca.Dispatch.raceHandler, Arca.Dispatch.unitsHandler]
 
 partial def loop (stdin stdout : IO.FS.Stream) : IO Unit := do
   let line ← stdin.getLine
